@@ -129,7 +129,16 @@ def impl_lineage(job):
             opts["volume"] = it["vmode"]
             sp = LineageVolumeSplitter(M, options=opts, partition_noise=0.0)
             M.create_volume_rule("linear", {"growth_rate": 0.5})
-            M.create_division_rule(it["div"][0], dict(it["div"][1]), sp)
+            if it.get("cause") == "event":
+                # the cell divides through a division EVENT that carries the splitter of the record; the model also has a
+                # division rule (never reached) whose splitter treats every species and the volume the other way round
+                oa = {names[i]: ("binomial" if it["modes"][i] == "duplicate" else "duplicate") for i in range(3)}
+                oa["volume"] = "perfect" if it["vmode"] == "duplicate" else "duplicate"
+                spa = LineageVolumeSplitter(M, options=oa, partition_noise=0.0)
+                M.create_division_rule("volume", {"threshold": 1.0e6}, spa)
+                M.create_division_event("division", {}, "massaction", {"k": 0.5, "species": ""}, sp)
+            else:
+                M.create_division_rule(it["div"][0], dict(it["div"][1]), sp)
             if it.get("death"):
                 M.create_death_rule(it["death"][0], dict(it["death"][1]))
             M.py_initialize()
@@ -216,7 +225,7 @@ def run(tier):
             vmode = "perfect"      # a duplicated volume is already above a volume threshold: bioscrape refuses ("dividing too fast")
         death = [None, None, ("species", {"specie": "S1", "threshold": 0.5, "comp": "<"}),
                  ("species", {"specie": "S1", "threshold": 5.5, "comp": ">"})][(i // 2) % 4]
-        items.append({"id": i + 1, "death": death, "rx": i % len(REACTIONS), "div": div, "modes": MODESETS[(i // 3) % 4],
+        items.append({"id": i + 1, "death": death, "cause": "event" if i % 3 == 2 else "rule", "rx": i % len(REACTIONS), "div": div, "modes": MODESETS[(i // 3) % 4],
                       "vmode": vmode, "x0": [(3 * i + seed) % 7, (5 * i) % 4, (i // 2) % 3], "nt": 21 + 4 * (i % 3),
                       "seed": seed * 104729 + i + 1, "safe": bool(i % 2)})
     tres = pool.run_jobs("c19", "impl_lineage", [{"items": ch} for ch in pool.chunks(items, 20)])
@@ -254,6 +263,8 @@ def run(tier):
         else:
             it = byid[L["id"]]
             exhausted = "runs-out" if it["rx"] in (0, 1, 4) else "sustained"
+            if it.get("cause") == "event":
+                exhausted += ":division-event"
             v.violation("lineage:%s:%s" % (vd["clause"], exhausted), "lineage rejected: clause %s (%d cells, %d divisions)" % (vd["clause"], vd["cells"], vd["divisions"]),
                         {"item": it, "lineage": L, "verdict": vd})
     rc = v.finish()
@@ -261,11 +272,11 @@ def run(tier):
     cov = {"states": r1.distinct + r2.generated + tstates, "transitions": r1.generated + r2.generated + tstates,
            "traces_validated_against_impl": ok + accepted, "samples": [s], "exhaustive": True,
            "partitions_replayed": len(recs), "partitions_exact": ok, "lineages_recorded": len(lins), "lineages_accepted": accepted,
-           "cells_in_lineages": ncells, "divisions_in_lineages": ndiv, "checker_cmd": r1.cmd + " ; tlc TraceLineage"}
+           "lineages_dividing_by_event": sum(1 for L in lins if byid[L["id"]].get("cause") == "event"), "cells_in_lineages": ncells, "divisions_in_lineages": ndiv, "checker_cmd": r1.cmd + " ; tlc TraceLineage"}
     common.write_evidence(PROP, tier, cov, time.time() - t0, len(v.alarms) + sum(v.known_hit.values()),
                           assumptions=["Binomial(n, p) is decided by exact counting over the uniform grid (spec) plus exact replay of the per-molecule Bernoulli draws (code); A-RNG for the stream itself",
                                        "lineage runs use partition noise 0 and a linear growth rule with dyadic increments so that reported volumes are exact rationals",
-                                       "half of the lineage runs have a species death rule (completeness is demanded only where no cell can die); division/death events and custom splitter functions are not generated"])
+                                       "half of the lineage runs have a species death rule (completeness is demanded only where no cell can die); a third of the lineage runs divide through a division event whose splitter differs from that of a (never reached) division rule of the same model; death events, volume events and custom splitter functions are not generated"])
     return rc
 
 
